@@ -299,7 +299,7 @@ theorem probEvent_rule2_fragX (M : Model) (ν : BaseValues) (hM : Compatible M G
     unfold rule2Applies at hr2
     rw [blocked_nil_of_plain cf hplain] at hr2
     have hd := allSeparated_true _ _ _ _ hr2 o ho
-    simp only [List.filter_nil] at hd
+    simp only [List.nil_append, List.filter_nil] at hd
     have hno := MG.no_ancAdj_path_of_dSeparated _ (MG.wf_removeOutEdges _ _) _ _ hd
     rw [hcf, hop] at hno
     exact sep_facts_of_no_path G hG hbl keys anc hanc o.name x (hop ▸ hokey) hxkey hno
